@@ -58,7 +58,10 @@ def is_solution(cnf, assignment):
     return True
 
 def solve_cnf(cnf, *, debug=False):
-    cnf = copy(cnf)  # avoid modifying the input
+    # Avoid modifying the input. Repeated literals within a clause are removed
+    # (keeping first occurrences): a clause like [~x, ~x] would otherwise never
+    # be recognized as a unit clause, and the main loop would not terminate.
+    cnf = [list(dict.fromkeys(clause)) for clause in cnf]
     assigns = dict()
     level = 0
     proofs = dict()
